@@ -13,7 +13,7 @@
     `Rect.InRange`  the placed box fits into `i32` coordinates (else the real code overflows).
 
   Not proved here:
-  -- [V] colours: `C::from(raw)` of the seven colour types is not modelled (colours are raw values): carried by correspondence + oracle only
+  -- (closed) colours: identifying a colour with its raw value loses nothing — Props/C09/Colours.lean (from C12: raw -> colour -> raw is the identity on every raw value that fits the type's used bits, for every built-in colour type; raw values with unused bits set are masked); the Rust-level remainder is listed there
   -- [V] target independence of `draw` (Rust parametricity in the `DrawTarget`): the same call list reaches R1 and R2, carried by correspondence + oracle only
 -/
 import EG.Lemmas.ImageRawImage
